@@ -114,6 +114,14 @@ class Obligation:
         return s.to_smt2()
 
 
+def _immutable_type(ty):
+    if isinstance(ty, TOpt):
+        return _immutable_type(ty.inner)
+    if isinstance(ty, TTuple):
+        return all(_immutable_type(e) for e in ty.elems)
+    return ty in (TInt, TReal, TBool, TStr, TNone) or isinstance(ty, TGraph)       # a graph value is a reference
+
+
 class State:
     __slots__ = ('env', 'pc', 'heap', 'exc', 'ret', 'writable', 'ghost_log', 'flow')
 
@@ -329,6 +337,20 @@ class FunctionRun:
         # ghosts
         for g, (ty, init) in c.ghosts.items():
             st.env[g] = ops.coerce(self.spec_expr(init, st, None), parse_type(ty))
+        # parameters the body rebinds (`p = ...`): in a postcondition the name of a parameter denotes the object that was
+        # passed in, as it does for the caller and for the run-time monitor, not whatever the local name is bound to at the end
+        self.rebound = {}
+        clauses = ' '.join(list(c.ensures) + [sp.get('when') or '' for sp in c.raises.values()])
+        for node in ast.walk(self.fn):
+            if isinstance(node, ast.Name) and isinstance(node.ctx, ast.Store) and node.id in names and node.id in st.env \
+                    and node.id not in self.rebound:
+                v = st.env[node.id]
+                if isinstance(v, Val) and not _immutable_type(v.ty):
+                    import re as _re
+                    if _re.search(r'(?<![\w.])%s(?![\w])' % _re.escape(node.id), clauses):
+                        raise Unsupported('parameter %s (mutable type %s) is rebound in the body and named in a postcondition' % (node.id, v.ty))
+                    continue
+                self.rebound[node.id] = v
         self.entry = st.copy()
         self.mod_terms = self.parse_mods(c.modifies, st, None)
         st.writable = self._writable_pred(self.mod_terms, self.entry_next_gid)
@@ -470,6 +492,8 @@ class FunctionRun:
         c = self.c
         n_ret = 0
         for st in outs:
+            for p, v in self.rebound.items():
+                st.env[p] = v
             if st.flow == 'raise':
                 name = exc_canon(st.exc)
                 spec = None
